@@ -230,7 +230,19 @@ def rule_window(ctx):
   okl = bool(lc)
   for e in lc:
     args = e.data["args"]
-    full = all(isinstance(x, Poly) and x.as_atom() is not None and x.as_atom().kind == "listrep" for x in args[:2])
+    def whole(x, comp):
+      """the complete list of the issuer's coefficients: the pre-sized list that was filled element-wise, or the comprehension / append loop over all
+      signature values taking component `comp` of HiddenNumberParams"""
+      a_ = x.as_atom() if isinstance(x, Poly) else None
+      if a_ is None:
+        return False
+      if a_.kind == "listrep":
+        return True
+      if a_.kind == "map" and len(a_.args) == 3:
+        el = as_poly(a_.args[0]).as_atom()
+        return el is not None and el.kind == "idx" and as_poly(el.args[1]).as_int() == comp and "HiddenNumberParams" in repr(el.args[0])
+      return False
+    full = len(args) >= 2 and whole(args[0], 0) and whole(args[1], 1)
     if not (full and T.partition_key_source(as_poly(args[2]), b.artifacts) is not None):
       okl = False
   ctx.record(R, b.where(), "LCG branch: all (a, b) of the issuer with the partition's curve id", okl, "HiddenNumberProblemForCurve(a, b, curve_id, lcg, strategy)" if okl else "LCG search receives other data")
@@ -618,9 +630,15 @@ def rule_u2f(ctx):
       # pair window: loop index k over range(len(uv) - 1), elements k and k + 1
       for info in b.loops():
         for vis in info.get("visits", []):
-          if isinstance(vis["iter"], Poly) and vis["iter"] == sym.mk("range", sym.mk("len", uv) - 1):
+          ra_ = vis["iter"].as_atom() if isinstance(vis["iter"], Poly) else None
+          if ra_ is None or ra_.kind != "range":
+            continue
+          rr_ = [as_poly(x_) for x_ in ra_.args]
+          cnt_ = rr_[0] if len(rr_) == 1 else (rr_[1] - rr_[0] if len(rr_) == 2 or (len(rr_) == 3 and rr_[2].as_int() == 1) else None)
+          # any spelling of "one pass per adjacent pair": len(uv) - 1 passes, pass t (0-based) looks at elements t and t + 1
+          if cnt_ is not None and (cnt_ - (sym.mk("len", uv) - 1)).is_zero():
             k = as_poly(vis["k"])
-            if pos1 == k and t2[1] == k + 1:
+            if (pos1 - k).is_zero() and (t2[1] - k - 1).is_zero():
               pair = True
     elif [x.as_int() for x in a[3:6]] == [1, 1, 0] and (pos1.as_int() == -1 or (pos1 - (sym.mk("len", uv) - 1)).is_zero()):
       single = True
